@@ -51,7 +51,8 @@ TECHNIQUE = ('Lean 4 proof: store invariant by induction over all request histor
              'logical clock with a gated expiry thread')
 LEVEL_TEXT = ('Proved in Lean for every configuration and every history (any number of requests, clock advances and expiry '
               'sweeps) of the transcribed MemoryCache + caching.get/tee_output/_wrapper: a response served from the cache '
-              'is the output of an earlier handler run (unique generation number) for the same store key, agrees with it '
+              'is the output of an earlier handler run (unique generation number) that ran to completion (handler and body '
+              'iterator did not raise, a streamed body was drained by its client), for the same store key, agrees with it '
               'on every selecting header, is no older in whole seconds than min(delay, request max-age), carries Age = '
               'elapsed whole seconds, was storable (no request/response no-store, no Pragma: no-cache, non-empty, below '
               'maxobj_size); POST/PUT/DELETE (live table) and Pragma/Cache-Control: no-cache reach the handler and the next '
@@ -75,9 +76,10 @@ ASSUMPTIONS = [
     'the clock is monotone; a request happens at one instant (response.time)',
     'tools.caching.antistampede_timeout = None in the differential stream (no real waiting); requests of one '
     'history are sequential',
-    'handlers return their whole body (no abandoned streaming response)',
 ]
-RULE = ('random request histories (3..60 ops) over 1-4 URLs x query strings x {GET,HEAD,POST,PUT,DELETE} x 0-3 '
+RULE = ('random request histories (3..60 ops) over 1-4 URLs x query strings x {GET,HEAD,POST,PUT,DELETE} x handler '
+        'outcomes (bytes / chunk generator buffered or streamed, raising at chunk 0-2, exception or HTTPError before any '
+        'body, client abandoning a stream, encode tool on/off) x 0-3 '
         'Vary headers with values permuted across headers x Cache-Control/Pragma directives x clock steps placed on '
         'the delay / max-age boundaries (quarter seconds) x expiry sweeps x size limits; non-trivial = at least one '
         'response was served from the cache; distinct = distinct driver line')
